@@ -135,9 +135,10 @@ inductive ArithFlag where
   | wire (v : Nat)
 deriving Repr, DecidableEq
 
-/-- `ShiftRight(a, b, r, arithmetic)` arithmetic.py:831-904 -/
+/-- `ShiftRight(a, b, r, arithmetic)` arithmetic.py:831-904.  Since /repo f333ccb the sign/zero-extended wires have
+    `max(w, r.getWidth()) + (1<<wb)` bits (before: `w + (1<<wb)`, too few for a result wider than the operand). -/
 def shiftRight (aw wb rw : Nat) (ar : ArithFlag) (a b : Nat) : Nat :=
-  let ew := aw + 2^wb
+  let ew := max aw rw + 2^wb
   let lw : Nat × Nat := match ar with
     | .wire v =>
       let signExtended := Leaf.sext ew aw a
@@ -154,13 +155,14 @@ def shiftLeft (aw wb rw : Nat) (a b : Nat) : Nat :=
   let prer := barrel (fun last n => Leaf.shlC w last n) w wb b a
   Leaf.buf rw prer
 
-/-- `RotateRight(a, b, r)` arithmetic.py:955-999: `shifted` has the width of `r`, `prer` the width of `a` -/
+/-- `RotateRight(a, b, r)` arithmetic.py:955-999: `shifted` and `prer` have the width of `a` (since /repo 6d96f2c;
+    before, `shifted` had the width of `r` and a narrow `r` truncated the word between stages) -/
 def rotateRight (aw wb rw : Nat) (a b : Nat) : Nat :=
-  let prer := barrel (fun last n => Leaf.rotr rw aw last n) aw wb b a
+  let prer := barrel (fun last n => Leaf.rotr aw aw last n) aw wb b a
   Leaf.buf rw prer
 
 def rotateLeft (aw wb rw : Nat) (a b : Nat) : Nat :=
-  let prer := barrel (fun last n => Leaf.rotl rw aw last n) aw wb b a
+  let prer := barrel (fun last n => Leaf.rotl aw aw last n) aw wb b a
   Leaf.buf rw prer
 
 /-- every stage constant `1<<i`, `i < wb`, must not exceed the width of `a` (else `a >> (w-n)` raises) -/
